@@ -4,7 +4,10 @@ import itertools, random
 
 ATOMS = ['X0', 'X1', 'X2', 'X3']
 GROUPS = ['GA', 'GB', 'GC']
-TRAITS = {'D': ['G'], 'D2': ['G', 'H'], 'Dp': ['G'], 'Dp<u8>': ['G'], 'Dq': ['G'], 'Dl': ['G'], 'Dc<1>': ['G'], 'Dc<2>': ['G']}
+TRAITS = {'D': ['G'], 'D2': ['G', 'H'], 'Dp': ['G'], 'Dp<u8>': ['G'], 'Dq': ['G'], 'Dl': ['G'], 'Dc<1>': ['G'], 'Dc<2>': ['G'],
+          # dispatch traits named through a path: the same last segment as `D` one module down, and a
+          # trait two modules down with a mirrored sibling (`y::x::Dn` is another trait)
+          'legacy::D': ['G'], 'x::y::Dn': ['G'], 'y::x::Dn': ['G'], 'p::q::Dm': ['G']}
 
 
 def assocs_of(tr):
@@ -20,6 +23,10 @@ pub trait Dq<P: ?Sized> { type G: ?Sized; }
 pub trait Dl<'a, 'b> { type G: ?Sized; }
 pub trait Dc<const N: usize> { type G: ?Sized; }
 pub trait Tr0 {}
+pub mod legacy { pub trait D { type G: ?Sized; } }
+pub mod x { pub mod y { pub trait Dn { type G: ?Sized; } } }
+pub mod y { pub mod x { pub trait Dn { type G: ?Sized; } } }
+pub mod p { pub mod q { pub trait Dm { type G: ?Sized; } } }
 pub enum GA {} pub enum GB {} pub enum GC {} pub enum GD {}
 pub struct X0; pub struct X1; pub struct X2; pub struct X3;
 pub struct W<T, const N: usize>(core::marker::PhantomData<T>);
@@ -446,6 +453,19 @@ def gen_targs_case(rng, variant=None, idx=None):
                      relaxed={'T1': rng.choice(['inline', 'where'])})
         extra_world = 'impl Tr0 for X0 {}\nimpl Tr0 for str {}\nimpl Tr0 for [u8] {}\n'
         targs_pool = ['X0', 'str', '[u8]']      # `K<X1>` would be ill-formed (X1: Tr0 does not hold)
+    elif variant == 'unsized_where_overlap':
+        # the trait of `unsized_where`, a general block over the relaxed parameter and a block for
+        # the unsized argument `str` with the SAME row: they overlap (witness: any type of that
+        # row with the argument str), whatever order the predicates of the main impl come in
+        tg = '<P: ?Sized>'
+        trait_where = 'where P: Tr0'
+        g0 = rng.choice(GROUPS)
+        pl = lambda: rng.choice(['inline', 'where'])
+        b0 = Block(mk_slots(rng, ['T0', 'T1']), '{T1}', '{T0}', [('{T0}', tr, {'G': g0}, pl()), ('{T1}', 'Tr0', {}, pl())], 'b0', relaxed={'T1': pl()})
+        b1 = Block(mk_slots(rng, ['T0']), pk.choice(['str', '[u8]']), '{T0}', [('{T0}', tr, {'G': g0}, pl())], 'b1')
+        blocks = [b0, b1]
+        extra_world = 'impl Tr0 for X0 {}\nimpl Tr0 for str {}\nimpl Tr0 for [u8] {}\n'
+        targs_pool = ['X0', 'str', '[u8]']
     elif variant == 'unsized_nested_arg':
         # a relaxed parameter that is not dispatched on and occurs in the header only nested
         # inside a trait argument: K<Box<V>> for T, V: ?Sized
@@ -548,6 +568,15 @@ def gen_targs_case(rng, variant=None, idx=None):
         b2 = Block(mk_slots(rng, ['T0']), 'X0', '{T0}', [('{T0}', tr, {'G': g[2]}, rel())], 'b2', relaxed=({'T0': rel()} if rng.random() < 0.5 else {}))
         blocks = [b0, b1] + ([b2] if rng.random() < 0.5 else [])
         targs_pool = ['X0', 'str', '[u8]', 'X1']
+        if pk.choice([False, True, False]):
+            # the trait parameter itself must be Sized: only the self parameter is relaxed, by the
+            # general block and / or by the member nested through the concrete argument (whose
+            # canonical name for the self parameter is the group's name for the trait argument)
+            tg = '<P>'
+            b0.relaxed = rng.choice([{}, {'T0': rel()}])
+            b2.relaxed = {'T0': rel()}
+            blocks = [b0, b2]
+            targs_pool = ['X0', 'X1']
     else:
         tg = "<'a, P: 'a + ?Sized, const N: usize>"
         blocks = fam("{L0}, {T1}, {N0}", "&{L0} {T0}", ['L0', 'T0', 'T1', 'N0'], rng.sample(GROUPS, 2), 0, relaxed={'T1': 'where'})
@@ -573,6 +602,8 @@ def gen_targs_case(rng, variant=None, idx=None):
     if variant == 'nested_arg':
         for ty in ['X0', 'X1', 'X2']:
             world[(ty, 'D')] = {'G': rng.choice(GROUPS)} if rng.random() < 0.85 else None
+    if variant == 'unsized_where_overlap':
+        world[('X0', tr)] = {a: g0 for a in TRAITS[tr]}      # the witness
     c = Case('targs:' + variant, 'K', tg, blocks, probes, world, extra_world=extra_world)
     c.trait_where = trait_where
     return c
@@ -795,6 +826,34 @@ def gen_case(rng, kind, idx=None):
             blocks.append(Block({x: slots[x] for x in order}, None, self_fmt, bounds, 'b%d' % i, relaxed=relaxed))
         headers = [HEADERS[h]] * len(blocks)
         probes, world = build_world_and_probes(rng, blocks, headers, unsized=True, nprobes=14, impl_rate=0.9)
+        return Case(kind, 'K', '', blocks, probes, world)
+    elif kind == 'twokeys':
+        # one parameter dispatched on through TWO traits (the same path at two argument lists, two
+        # traits with the same last segment at different depths, ..) and the other parameter
+        # through a third key; every block binds all three, the bounds of the first parameter are
+        # written around the other parameter's (inline / where, interleaved)
+        self_fmt, used = HEADERS['pair']
+        tra, trb = pk.choice([('Dc<1>', 'Dc<2>'), ('legacy::D', 'D'), ('Dp', 'Dp<u8>'), ('p::q::Dm', 'D2'), ('D', 'legacy::D'), ('x::y::Dn', 'y::x::Dn'), ('D', 'D2')])
+        trc = 'D'
+        rows = pk.choice([
+            [('GA', 'GA', 'GA'), ('GA', 'GA', 'GB'), ('GB', 'GA', 'GA')],
+            [('GA', 'GB', 'GC'), ('GA', 'GA', 'GC'), ('GA', 'GB', 'GA'), ('GB', 'GB', 'GC')],
+            [('GA', 'GA', 'GB'), ('GB', 'GA', 'GB')],
+        ])
+        plans = [(('where', 'where', 'where'), False), (('inline', 'inline', 'where'), False), (('inline', 'where', 'inline'), False),
+                 (('where', 'where', 'where'), True), (('inline', 'inline', 'inline'), False), (('where', 'inline', 'where'), True)]
+        p0 = pk.choice(list(range(len(plans))))
+        blocks = []
+        for i, (ga, gc, gb) in enumerate(rows):
+            slots = mk_slots(rng, used)
+            order = list(slots); rng.shuffle(order)
+            pl, rev = plans[(p0 + i) % len(plans)]
+            bounds = [('{T0}', tra, {'G': ga}, pl[0]), ('{T1}', trc, {'G': gc}, pl[1]), ('{T0}', trb, {'G': gb}, pl[2])]
+            if rev:
+                bounds.reverse()
+            blocks.append(Block({x: slots[x] for x in order}, None, self_fmt, bounds, 'b%d' % i))
+        headers = [HEADERS['pair']] * len(blocks)
+        probes, world = build_world_and_probes(rng, blocks, headers, nprobes=10, impl_rate=0.95, prefer_rate=0.6)
         return Case(kind, 'K', '', blocks, probes, world)
     elif kind == 'unsized_free':
         # a parameter that is NOT dispatched on (it only occurs inside a Box / behind a reference of
